@@ -1,12 +1,30 @@
 // C04 — reverting to a snapshot restores the account state exactly; the root
 // afterwards equals the root had the reverted operations never been executed.
 //
-// Monitor over the REAL account.AccountDB (Proposal002 active), two oracles
-// (see oracle.go): accessor answers at Snapshot() vs after RevertToSnapshot(),
-// and twin execution (history vs history-without-reverted-regions) with a
-// leaf-level diff of the two committed account tries. Every mismatch is reduced
-// by delta debugging to a minimal history and classified (kind of account, kinds
-// of reverted operations, kind of leaf difference); the class is the signature.
+// Monitor over the REAL account.AccountDB (Proposal002 active). Two oracles
+// (oracle.go), applied at every RevertToSnapshot of a generated history:
+//  1. accessor oracle — every accessor over a closed universe, answers recorded
+//     when Snapshot() was called vs answers after the revert;
+//  2. twin oracle — the history vs the same history without the reverted region
+//     (and, at the end, without any reverted region): IntermediateRoot / Commit
+//     roots must agree; otherwise the two committed tries are diffed leaf by leaf.
+//
+// States "at a point" are obtained by re-executing the prefix on a fresh AccountDB
+// (replicas), so the observation's own read side effects never disturb a judged run,
+// and the twin performs exactly the surviving operations (reads included).
+//
+// Every mismatch is reduced by delta debugging to a minimal history and classified;
+// the class is the signature:
+//
+//	C04:accessor:<Accessor>:reverted-<write|read|committed-read|scratch>
+//	C04:twin-root:needs-<ingredient(s)>[:reverted-<write|read>:<leaf kind>]
+//	C04:twin-root:unexplained:<account kind>-reverted-<groups>[-then-…]:<leaf kind>
+//	C04:revert:stale-revision-accepted, C04:run:panic:<site>
+//
+// "needs-X": the root difference disappears when quirk X of the code base is taken
+// out of BOTH executions (oracle.go: ingredients); a leak that needs none of them —
+// e.g. a mutator that forgot its journal entry — is "unexplained" and carries its
+// full feature description.
 //
 // Process model: the native-balance binding is a process-global cache inside the
 // account package, so the "unbound" configuration (balances live in the storage
@@ -64,8 +82,6 @@ type Witness struct {
 	FromCase int               `json:"from_case_index"`
 	FromLen  int               `json:"from_history_length"`
 }
-
-func subjectOnly(cls string) string { return cls }
 
 // focus keeps the control operations and the operations that can touch account x
 // (a cheap first reduction step before delta debugging).
@@ -276,7 +292,7 @@ func evalCase(r *mon.Run, d account.AccountDatabase, c Case, ci int, stats bool)
 	}
 	for i := range out {
 		f := &out[i]
-		_, cls, _ := classify(d, f.hist, f.addr, f.global, false, f.label)
+		_, cls, _ := classify(d, f.hist, f.addr, f.global, false, f.label) // cls: kind of account before the region
 		// families of the reverted operations aimed at the account (coarse, pre-minimisation)
 		fams := map[string]bool{}
 		if s, e, ok := regionBounds(f.hist, f.label); ok {
